@@ -243,7 +243,9 @@ def interfaces(ob, which, d, k):
 
 
 @scenario('C12', 'local_system.first_step', ['torchtt.solvers.amen_solve', 'torchtt.solvers._amen_solve_python'],
-          quick=[dict(d=2, guess=g, direct=True) for g in (False, True)] + [dict(d=2, guess=False, direct=False)], replay=None, max_paths=400)
+          quick=[dict(d=2, guess=g, direct=True) for g in (False, True)] + [dict(d=2, guess=False, direct=False)],
+          thorough=[dict(d=2, guess=g, direct=True) for g in (False, True)] + [dict(d=2, guess=False, direct=False)] + [dict(d=3, guess=g, direct=True) for g in (False, True)],
+          replay=None, max_paths=400)
 def local_system_first_step(ob, d, guess, direct):
     local_system_body(ob, d, guess, direct, 'solve')
 
